@@ -348,6 +348,12 @@ func cmdCheck(args []string) int {
 							fmt.Println("  ERROR writing replay:", err)
 						}
 						replayPaths = append(replayPaths, p)
+					} else if v.Sched && nr.Status == "ok" {
+						// DESIGN "Concurrency": a scheduler/select/map-order choice cannot be forced in a native run;
+						// the engine's deterministic re-execution of the recorded decision trail is the replay.
+						fmt.Printf("  schedule-dependent violation (not forced natively; the decision trail is the replay): %s %s [%s]\n", v.Harness, v.Kind, v.Label)
+						confirmed = append(confirmed, v)
+						replayPaths = append(replayPaths, "")
 					} else {
 						fmt.Printf("  UNCONFIRMED counterexample (engine/stub bug): %s %s [%s] native=%s vector=%v\n", v.Harness, v.Kind, v.Label, nr.Status, vecs[nOK+i].Values)
 						exit = 2
